@@ -1272,7 +1272,7 @@ class CodeBuilder:
             bare_type in (typing.Any, type(None), None)
             or is_type_var_any(self.get_real_type(fname, ftype))
             or is_optional(ftype, self.get_field_resolved_type_params(fname))
-            or is_union_with_none(ftype)
+            or is_union_with_none(self.get_real_type(fname, ftype))
             or self.get_field_default(fname) is None
         )
         value = "value" if could_be_none or force_value else f"self.{fname}"
